@@ -193,6 +193,15 @@ fn check_string_raw(cx: &mut Ctx, s: &[u8]) {
                 }
             }
             Out::Inc | Out::Err(_) => {
+                // "more bytes are needed" must be true: a frame that is complete (or can no longer become one) under
+                // the most lenient reading may be a value or a protocol error, never a request to wait
+                if matches!(out, Out::Inc) && !needs_more(s, 0).0 {
+                    rep.violation(
+                        format!("C15|{}|claims-incomplete-for-input-no-extension-can-complete|{}", name, cls),
+                        format!("{} bytes reported as incomplete although the first line is terminated and every announced length is present", s.len()),
+                        wit(),
+                    );
+                }
                 if let Outcome::Value(t2, n2) = myresp::decode(s) {
                     // a complete well-formed frame is present at the front
                     let lossy_utf8 = name == "parser" && has_non_utf8_line(&t2);
@@ -233,6 +242,47 @@ fn check_string_raw(cx: &mut Ctx, s: &[u8]) {
                 );
             }
         }
+    }
+}
+
+/// Could more bytes still turn `s` into (the start of) a frame? Lenient reading, the most generous one a decoder may
+/// take: a line ends at the first CRLF (a lone CR inside it is tolerated), lengths are decimal; anything that can no
+/// longer be completed - or is already complete - is NOT "needs more".
+fn needs_more(s: &[u8], depth: usize) -> (bool, usize) {
+    // returns (needs more bytes, bytes occupied if complete/decidable)
+    if s.is_empty() {
+        return (true, 0);
+    }
+    let Some(eol) = s.windows(2).position(|w| w == b"\r\n") else { return (true, 0) };
+    let line = &s[1..eol];
+    let after = eol + 2;
+    let num = std::str::from_utf8(line).ok().and_then(|t| t.parse::<i64>().ok());
+    match s[0] {
+        b'$' => match num {
+            Some(n) if n >= 0 => {
+                let need = after + n as usize + 2;
+                (s.len() < need, need)
+            }
+            _ => (false, after),
+        },
+        b'*' if depth < 200 => match num {
+            Some(n) if n > 0 => {
+                let mut at = after;
+                for _ in 0..n.min(100_000) {
+                    let (more, used) = needs_more(&s[at.min(s.len())..], depth + 1);
+                    if more {
+                        return (true, 0);
+                    }
+                    if used == 0 {
+                        return (false, at);
+                    }
+                    at += used;
+                }
+                (false, at)
+            }
+            _ => (false, after),
+        },
+        _ => (false, after),
     }
 }
 
